@@ -191,12 +191,16 @@ def run(ctx):
         base[(n, k)] = r_
         ctx.case(("clean", n, k))
         ctx.traces += 1
-        if r_.get("raised"):
+        if r_.get("raised") and not n.startswith("fails/"):
             raised.append("%s[%d]: %s" % (n, k, r_.get("value")))
         if r_.get("repeat_same") is False:
             ctx.violation({"kind": "replay", "history": j, "threads": 1, "result": r_.get("value"),
                            "how": "the same call made twice in a row (on the same out= buffer) returned different bits"},
                           key="purity/repeat-differs/%s" % n)
+        if r_.get("process_state_changed"):
+            ctx.violation({"kind": "replay", "history": j, "threads": 1, "changed": r_["process_state_changed"],
+                           "how": "process-wide settings differ after the call (clean process): [before, after]"},
+                          key="purity/process-state-changed/%s" % n)
         if r_.get("reuse_same") is False:
             ctx.violation({"kind": "replay", "history": j, "threads": 1,
                            "how": "call, overwrite the ndarray arguments IN PLACE with the values of the next argument set, call "
@@ -224,6 +228,11 @@ def run(ctx):
             ctx.case((job["routine"], job["argset"], job["byte"], str(job["prior"]), th) if nontriv else None,
                      sample={"history": job, "threads": th, "result": r_.get("value")} if job["prior"] and len(ctx.samples) < 4 else None)
             ctx.traces += 1
+            if r_.get("process_state_changed"):
+                ctx.violation({"kind": "replay", "history": job, "threads": th, "changed": r_["process_state_changed"],
+                               "how": "process-wide settings differ after the history + call: [before, after] (a prior call "
+                                      "of the history may have left them behind, e.g. one that failed)"},
+                              key="purity/process-state-changed/after-history")
             if r_["digest"] != ref["digest"]:
                 ctx.violation({"kind": "replay", "history": job, "threads": th, "result": r_.get("value"),
                                "clean_result": ref.get("value"),
